@@ -57,7 +57,10 @@ func c12OpType(c *core.Ctx, op string, t reflect.Type) {
 			if mode == "reuse" || mode == "incr" {
 				dests = []string{gen.LC, gen.LS, gen.LF}
 			}
-			if mode == "incr" && !model.IsNumber(t) {
+			if mode == "reuse-othertype" || mode == "incr-othertype" {
+				dests = []string{gen.LC}
+			}
+			if (mode == "incr" || mode == "incr-othertype") && !model.IsNumber(t) {
 				continue
 			}
 			for li, lay := range gen.ElemLayouts {
